@@ -8,7 +8,7 @@ CFG = dict(
                "with >= 1 line); Has* flags are only raised; mappings that carry function names and their locations are left "
                "alone unless force is requested; demangling keeps non-empty names non-empty (for demanglers that do); the result passes "
                "CheckValid whenever the input did and the new function ids fit below 2^64; symbolz adjust detects every wrap-around; "
-               "-symbolize=none does nothing; the evaluated checkers are sound for these relations. Model tied to the code by ~2,300 "
+               "-symbolize=none does nothing; the evaluated checkers are sound for these relations; the driver pipeline around Symbolize (fetch_* theorems) keeps all of it and restores the mapping files outside known finding F34 (refuted twin). Model tied to the code by ~2,300 "
                "differential cases per quick run (whole Symbolize runs against scripted plug-ins + direct calls of adjust, the symbolz "
                "regexp, removeMatching, looksLikeDemangledCPlusPlus).",
     level_note="Oracle-relative: ObjTool/ObjFile, the symbolz endpoint and demangle.Filter are arbitrary (scripted / tabulated), not modelled. "
@@ -22,7 +22,11 @@ CFG = dict(
          "any call, build-id mismatches, empty/inlined stacks, interned frames, symbolz bodies with re-based addresses, malformed lines, "
          "overflowing numbers, unterminated last line) x sources with extreme start offsets; plus an all-answer stream, an id-wrap "
          "stream and the replayed witnesses of the repaired F12/F13; ops adjust / re / rm / looks = direct calls of the pure helpers on "
-         "boundary and random arguments. distinct = sha256 of the input term; non-trivial = a plug-in was called or the profile changed "
+         "boundary and random arguments; op sym2 = the same Symbolizer symbolizes the same profile twice; op fetch = the driver's fetchProfiles "
+         "(real code, one profile handed over by a fetcher plug-in reporting a remote URL or none, object tool that finds no binary, "
+         "answer script starting when the Symbolizer is entered) over 17 mode spellings x fetched profiles whose mappings often have "
+         "neither file nor build id or that have no mapping at all, compared with the pipeline model (fake mapping, "
+         "collectMappingSources, Symbolize, unsourceMappings, CheckValid) and judged by the same clauses + saved copy agrees. distinct = sha256 of the input term; non-trivial = a plug-in was called or the profile changed "
          "(sym), offset != 0 (adjust), the regexp matched (re), the name changed (rm), non-empty name (looks)",
     spec_what="symbolization changed something other than lines / names / has-flags (or touched a mapping that already had symbols without "
               "force, emptied a name, left an invalid profile, or adjust missed a wrap-around): C12 statement",
@@ -35,5 +39,8 @@ CFG = dict(
                  "validity of the result is claimed when max function id + number of functions added < 2^64 (uint64 ids; beyond that "
                  "max+1 wraps to the reserved id 0); the wrap-around itself is modelled and compared",
                  "demangle.Filter never answers a non-empty name by the empty string (checked on the shipped tables)",
-                 "modes are ASCII (strings.ToLower)"],
+                 "modes are ASCII (strings.ToLower)",
+                 "op fetch: one source, no base profile, empty DropFrames (RemoveUninteresting is C11's), distinct sample type names "
+                 "(CompatibilizeSampleTypes is C07/C16's), locateBinaries finds no binary, the source URL reported by the fetcher is "
+                 "absolute (as adjustURL produces); class 34 = known finding F34 (unsourceMappings erases URL-like files it never wrote)"],
 )
